@@ -30,6 +30,8 @@ package main
 import (
 	"bytes"
 	"encoding/json"
+	"os"
+	"os/exec"
 	"strings"
 
 	"github.com/high-moctane/mocrelay"
@@ -497,7 +499,13 @@ func c10GenText(r *common.Rand) c10Case {
 		target = common.Pick(r, allTypes)
 		cls = "cross-type"
 	}
+	if r.Chance(6) {
+		ps.bad, ps.noLabel = 30, true
+	}
 	text := ps.print(j)
+	if ps.injected > 0 {
+		cls = "raw:utf8-any"
+	}
 	return c10Text(cls, target, text)
 }
 
@@ -707,7 +715,7 @@ func c10GenRaw(r *common.Rand) c10Case {
 		return t
 	}
 	switch k := r.Intn(100); {
-	case k < 22: // arbitrary bytes
+	case k < 18: // arbitrary bytes
 		n := r.Intn(40)
 		b := make([]byte, n)
 		for i := range b {
@@ -718,13 +726,13 @@ func c10GenRaw(r *common.Rand) c10Case {
 			}
 		}
 		return c10Text("raw:bytes", common.Pick(r, append([]string{"parse"}, allTypes...)), b)
-	case k < 42: // truncation
+	case k < 34: // truncation
 		t, text := c10ValidText(r)
 		if len(text) > 0 {
 			text = text[:r.Intn(len(text))]
 		}
 		return c10Text("raw:truncated", target(t), text)
-	case k < 72: // byte-level near miss
+	case k < 58: // byte-level near miss
 		t, text := c10ValidText(r)
 		n := 1 + r.Intn(2)
 		for i := 0; i < n && len(text) > 0; i++ {
@@ -741,7 +749,7 @@ func c10GenRaw(r *common.Rand) c10Case {
 			}
 		}
 		return c10Text("raw:byte-mutation", target(t), text)
-	case k < 80: // deep nesting
+	case k < 66: // deep nesting
 		n := common.Pick(r, []int{50, 1000, 9999, 10000, 10001, 100000})
 		open, cl := "[", "]"
 		if r.Chance(30) {
@@ -767,7 +775,7 @@ func c10GenRaw(r *common.Rand) c10Case {
 			ty = "scount"
 		}
 		return c10Text("raw:deep", ty, []byte(text))
-	case k < 90: // huge numbers
+	case k < 74: // huge numbers
 		big := common.Pick(r, []string{strings.Repeat("9", 400), "-" + strings.Repeat("9", 400), "1e400", "1" + strings.Repeat("0", 400) + ".5", "0." + strings.Repeat("0", 400) + "1"})
 		var text, ty string
 		switch r.Intn(5) {
@@ -783,7 +791,7 @@ func c10GenRaw(r *common.Rand) c10Case {
 			text, ty = `["OK","x",`+big+`,""]`, "sok"
 		}
 		return c10Text("raw:bignum", ty, []byte(text))
-	case k < 96: // invalid UTF-8 at any string position (values and member names) of a message of any type
+	case k < 94: // invalid UTF-8 at any string position (values and member names) of a message of any type
 		t := common.Pick(r, allTypes)
 		j := c10ShapeJV(t, r)
 		var text []byte
@@ -815,6 +823,371 @@ func c10GenRaw(r *common.Rand) c10Case {
 	}
 }
 
+// ---- histories of related inputs ---------------------------------------------
+
+func (j JV) clone() JV {
+	c := j
+	if j.A != nil {
+		c.A = make([]JV, len(j.A))
+		for i := range j.A {
+			c.A[i] = j.A[i].clone()
+		}
+	}
+	if j.O != nil {
+		c.O = make([]JMember, len(j.O))
+		for i := range j.O {
+			c.O[i] = JMember{j.O[i].K, j.O[i].V.clone()}
+		}
+	}
+	return c
+}
+
+func c10CloneX(v XVal) XVal {
+	b, err := json.Marshal(v)
+	if err != nil {
+		panic(err)
+	}
+	var c XVal
+	if err := json.Unmarshal(b, &c); err != nil {
+		panic(err)
+	}
+	return c
+}
+
+// types that carry the same payload in the same XVal fields
+var c10Kin = [][]string{{"event", "cevent", "cauth", "sevent"}, {"creq", "ccount"}, {"cclose", "seose"}, {"snotice", "sauth"}}
+
+func c10KinOf(t string) []string {
+	for _, g := range c10Kin {
+		for _, x := range g {
+			if x == t {
+				return g
+			}
+		}
+	}
+	return nil
+}
+
+// c10VaryStr: another string for a field that holds s (hex stays hex of the same length, mostly)
+func c10VaryStr(r *common.Rand, s string) string {
+	if (len(s) == 64 || len(s) == 128) && r.Chance(70) {
+		return c10Hex(r, len(s))
+	}
+	return c10Str(r)
+}
+
+// c10PerturbX: change one field of v (or nothing, or its message type); returns the name of the change
+func c10PerturbX(r *common.Rand, v *XVal, wf bool) string {
+	k := r.Intn(100)
+	if k < 12 {
+		return "repeat"
+	}
+	if g := c10KinOf(v.T); g != nil && k < 24 {
+		if v.E == nil && g[0] == "event" {
+			return "repeat" // a bare event is never nil
+		}
+		v.T = common.Pick(r, g)
+		return "retype"
+	}
+	str := func(h *HStr) { *h = HStr(c10VaryStr(r, string(*h))) }
+	switch v.T {
+	case "event", "cevent", "cauth", "sevent":
+		if v.E == nil || (v.T == "sevent" && r.Chance(12)) {
+			if v.T == "sevent" {
+				str(&v.Sub)
+				return "sub"
+			}
+			return "repeat"
+		}
+		e := v.E
+		switch r.Intn(7) {
+		case 0:
+			str(&e.ID)
+			return "ev-id"
+		case 1:
+			str(&e.PK)
+			return "ev-pubkey"
+		case 2:
+			e.TS = common.Pick(r, c10Ints)
+			return "ev-created_at"
+		case 3:
+			e.Kind = common.Pick(r, c10Ints)
+			return "ev-kind"
+		case 4:
+			var tags []*[]HStr
+			if e.Tags != nil {
+				tags = append(tags, (*e.Tags)...)
+			}
+			n := len(tags)
+			switch {
+			case n > 0 && r.Chance(35): // drop a tag
+				i := r.Intn(n)
+				tags = append(tags[:i:i], tags[i+1:]...)
+			case n > 0 && r.Chance(50): // change one element of one tag
+				i := r.Intn(n)
+				if tags[i] != nil && len(*tags[i]) > 0 {
+					c := append([]HStr{}, (*tags[i])...)
+					c[r.Intn(len(c))] = HStr(c10Str(r))
+					tags[i] = &c
+				} else {
+					tags[i] = c10HStrs(r, 3)
+				}
+			default: // one more tag
+				tags = append(tags, c10HStrs(r, 3))
+			}
+			if tags == nil {
+				tags = []*[]HStr{}
+			}
+			e.Tags = &tags
+			return "ev-tags"
+		case 5:
+			e.Content = HStr(c10Str(r))
+			return "ev-content"
+		default:
+			str(&e.Sig)
+			return "ev-sig"
+		}
+	case "filter":
+		if v.F == nil {
+			return "repeat"
+		}
+		c10PerturbF(r, v.F, wf)
+		return "filter-field"
+	case "creq", "ccount":
+		switch n := len(v.Fs); {
+		case r.Chance(25):
+			str(&v.Sub)
+			return "sub"
+		case n > 1 && r.Chance(20):
+			i := r.Intn(n)
+			v.Fs = append(v.Fs[:i:i], v.Fs[i+1:]...)
+			return "drop-filter"
+		case n < 3 && r.Chance(20):
+			v.Fs = append(v.Fs, c10XFilter(r, wf))
+			return "add-filter"
+		case n > 0:
+			i := r.Intn(n)
+			if v.Fs[i] == nil {
+				v.Fs[i] = c10XFilter(r, wf)
+			} else {
+				c10PerturbF(r, v.Fs[i], wf)
+			}
+			return "filter-field"
+		default:
+			str(&v.Sub)
+			return "sub"
+		}
+	case "cclose", "seose":
+		str(&v.Sub)
+		return "sub"
+	case "snotice", "sauth":
+		str(&v.Msg)
+		return "msg"
+	case "sok":
+		switch r.Intn(3) {
+		case 0:
+			str(&v.ID)
+			return "ok-id"
+		case 1:
+			v.Acc = !v.Acc
+			return "ok-accepted"
+		default:
+			p, m := c10Reason(r, wf)
+			v.Pfx, v.Msg = HStr(p), HStr(m)
+			return "reason"
+		}
+	case "scount":
+		switch r.Intn(3) {
+		case 0:
+			str(&v.Sub)
+			return "sub"
+		case 1:
+			v.Count = common.Pick(r, []string{"0", "1", "42", "9223372036854775807", "9223372036854775808", "18446744073709551615"})
+			return "count"
+		default:
+			if v.Approx == nil {
+				v.Approx = common.Ptr(r.Bool())
+			} else if r.Bool() {
+				v.Approx = nil
+			} else {
+				v.Approx = common.Ptr(!*v.Approx)
+			}
+			return "approximate"
+		}
+	case "sclosed":
+		if r.Bool() {
+			str(&v.Sub)
+			return "sub"
+		}
+		p, m := c10Reason(r, wf)
+		v.Pfx, v.Msg = HStr(p), HStr(m)
+		return "reason"
+	}
+	return "repeat"
+}
+
+// c10PerturbF: one field of f takes the value it has in a freshly generated filter
+func c10PerturbF(r *common.Rand, f *XFilter, wf bool) {
+	for try := 0; try < 8; try++ {
+		g := c10XFilter(r, wf)
+		switch r.Intn(7) {
+		case 0:
+			if f.IDs != nil || g.IDs != nil {
+				f.IDs = g.IDs
+				return
+			}
+		case 1:
+			if f.Authors != nil || g.Authors != nil {
+				f.Authors = g.Authors
+				return
+			}
+		case 2:
+			if f.Kinds != nil || g.Kinds != nil {
+				f.Kinds = g.Kinds
+				return
+			}
+		case 3:
+			if f.Tags != nil || g.Tags != nil {
+				f.Tags = g.Tags
+				return
+			}
+		case 4:
+			if f.Since != nil || g.Since != nil {
+				f.Since = g.Since
+				return
+			}
+		case 5:
+			if f.Until != nil || g.Until != nil {
+				f.Until = g.Until
+				return
+			}
+		default:
+			if f.Limit != nil || g.Limit != nil {
+				f.Limit = g.Limit
+				return
+			}
+		}
+	}
+}
+
+// c10PerturbJV: replace one scalar leaf of the tree (not the label) by another
+// scalar of its kind (or nothing, or a structural point mutation)
+func c10PerturbJV(r *common.Rand, root *JV) string {
+	k := r.Intn(100)
+	if k < 12 {
+		return "repeat"
+	}
+	if k < 22 {
+		return "mut:" + c10Mutate(r, root)
+	}
+	var nodes, leaves []*JV
+	c10Nodes(root, &nodes)
+	for _, n := range nodes {
+		if root.T == 'a' && len(root.A) > 0 && n == &root.A[0] {
+			continue
+		}
+		switch n.T {
+		case 's', 'i', 'f', 'b', 'z', 0:
+			leaves = append(leaves, n)
+		}
+	}
+	if len(leaves) == 0 {
+		return "repeat"
+	}
+	n := leaves[r.Intn(len(leaves))]
+	switch n.T {
+	case 's':
+		n.S = c10VaryStr(r, n.S)
+		return "leaf-string"
+	case 'i', 'f':
+		*n = c10Num(r)
+		return "leaf-number"
+	case 'b':
+		n.B = !n.B
+		return "leaf-bool"
+	default:
+		*n = c10Any(r, 0)
+		return "leaf-null"
+	}
+}
+
+func c10GenSeq(r *common.Rand) c10Case {
+	c := c10Case{K: "seq"}
+	t := common.Pick(r, allTypes)
+	nsteps := 2 + r.Intn(3)
+	isClient := false
+	for _, ct := range clientTypes {
+		if ct == t {
+			isClient = true
+		}
+	}
+	if r.Bool() {
+		// Go values: Marshal then Unmarshal, one after the other
+		c.Cls = "seq:value"
+		wf := r.Chance(80)
+		vals := []XVal{c10XValOf(r, t, wf)}
+		names := []string{"seq:base"}
+		for len(vals) < nsteps {
+			v := c10CloneX(vals[r.Intn(len(vals))])
+			names = append(names, "seq:"+c10PerturbX(r, &v, wf))
+			vals = append(vals, v)
+		}
+		for i, v := range vals {
+			c.Steps = append(c.Steps, c10Enc(names[i], v))
+		}
+		return c
+	}
+	// texts: decode, Marshal, decode again, one after the other
+	c.Cls = "seq:text"
+	base := c10ShapeJV(t, r)
+	if r.Chance(20) {
+		c10Mutate(r, &base)
+	}
+	js := []JV{base}
+	names := []string{"seq:base"}
+	for len(js) < nsteps {
+		j := js[r.Intn(len(js))].clone()
+		names = append(names, "seq:"+c10PerturbJV(r, &j))
+		js = append(js, j)
+	}
+	target := t
+	if isClient && r.Chance(55) {
+		target = "parse"
+	}
+	kin := c10KinOf(t)
+	for i, j := range js {
+		tg := target
+		if kin != nil && t != "event" && i > 0 && target != "parse" && r.Chance(15) {
+			// the same payload under a kindred message type
+			if k := common.Pick(r, kin); k != "event" && j.T == 'a' && len(j.A) > 0 {
+				tg = k
+				j.A[0] = jStr(c10Labels[k])
+			}
+		}
+		ps := &printStyle{r: r, ws: []int{0, 10}[r.Intn(2)], esc: []int{0, 5}[r.Intn(2)]}
+		c.Steps = append(c.Steps, c10Text(names[i], tg, ps.print(j)))
+	}
+	return c
+}
+
+// c10Isolated: run one replay case in a process of its own (same binary), so
+// that process-wide state of the implementation is shared by the steps of one
+// case and by nothing else
+func c10Isolated(raw json.RawMessage) json.RawMessage {
+	cmd := exec.Command(os.Args[0], "c10", "-out", "/dev/stdout", "-replay", "/dev/stdin")
+	cmd.Stdin = bytes.NewReader(append(append([]byte{}, raw...), '\n'))
+	cmd.Env = append(os.Environ(), "C10_CHILD=1")
+	outb, err := cmd.Output()
+	if err != nil {
+		common.Fatalf("replay of one case in a child process failed: %v", err)
+	}
+	outb = bytes.TrimSpace(outb)
+	if len(outb) == 0 || bytes.IndexByte(outb, '\n') >= 0 || !json.Valid(outb) {
+		common.Fatalf("replay of one case in a child process gave %d bytes, not one case", len(outb))
+	}
+	return json.RawMessage(outb)
+}
+
 // ---- sub-command -------------------------------------------------------------
 
 func c10Replay(raw json.RawMessage) c10Case {
@@ -822,7 +1195,20 @@ func c10Replay(raw json.RawMessage) c10Case {
 	if err := json.Unmarshal(raw, &c); err != nil {
 		common.Fatalf("bad replay case: %v", err)
 	}
+	return c10ReplayCase(c)
+}
+
+func c10ReplayCase(c c10Case) c10Case {
 	switch c.K {
+	case "seq":
+		out := c10Case{K: "seq", Cls: c.Cls}
+		for _, s := range c.Steps {
+			if s.K == "seq" {
+				common.Fatalf("nested seq case")
+			}
+			out.Steps = append(out.Steps, c10ReplayCase(s))
+		}
+		return out
 	case "enc":
 		if c.V == nil {
 			common.Fatalf("enc case without value")
@@ -847,8 +1233,13 @@ func c10Replay(raw json.RawMessage) c10Case {
 func init() {
 	subcmds["c10"] = func(seed uint64, n int, out *common.Out, replay string) {
 		if replay != "" {
-			for _, raw := range common.ReadLines(replay) {
-				out.Emit(c10Replay(raw))
+			lines := common.ReadLines(replay)
+			for _, raw := range lines {
+				if len(lines) > 1 {
+					out.Emit(c10Isolated(raw))
+				} else {
+					out.Emit(c10Replay(raw))
+				}
 			}
 			return
 		}
@@ -856,10 +1247,12 @@ func init() {
 		for i := 0; i < n; i++ {
 			r := root.Fork(uint64(i))
 			switch k := i % 20; {
-			case k < 11:
+			case k < 10:
 				out.Emit(c10GenText(r))
-			case k < 15:
+			case k < 14:
 				out.Emit(c10GenValue(r))
+			case k < 16:
+				out.Emit(c10GenSeq(r))
 			default:
 				out.Emit(c10GenRaw(r))
 			}
